@@ -648,7 +648,7 @@ func Discharge(q *Query, timeoutMs int, seed int) SolverResult {
 	queryCounter++
 	id := queryCounter
 	solverMu.Unlock()
-	base := filepath.Join(outDir, "smt", fmt.Sprintf("q%06d", id))
+	base := filepath.Join(smtDir(), fmt.Sprintf("q%06d", id))
 	os.MkdirAll(filepath.Dir(base), 0o755)
 
 	qfOnly := false
@@ -800,6 +800,13 @@ func cleanupQueryFiles(base string) {
 	for _, f := range m {
 		os.Remove(f)
 	}
+}
+
+// smtDir: the scratch directory of THIS process for query files. Several checks may run at the same time over the same
+// /verif/out (the harness, parallel detection runs): with a shared directory and per-process counters two processes wrote
+// the same q000123.smt2 and read each other's queries - spurious `sat` answers and "discharged" canaries.
+func smtDir() string {
+	return filepath.Join(outDir, "smt", fmt.Sprintf("p%d", os.Getpid()))
 }
 
 var keepSMT = false
